@@ -4,6 +4,7 @@ CONSTANTS
   WRun = {}
   WTerm = {}
   QCap = 4
+  MaxIters = 2
   MaxStart = 1
   ParentCancels = TRUE
   Presents = {{"start","run","stop"}}
